@@ -69,10 +69,14 @@ func (n *naiveTSO) Commit(revision uint64) {
 			break
 		}
 	}
-	// in case leader transfer, need to update tso and pre tso
-	preTSO := atomic.LoadUint64(&n.dealRevision)
-	if preTSO < revision {
-		atomic.CompareAndSwapUint64(&n.dealRevision, preTSO, revision)
+	// in case leader transfer, need to update tso and pre tso; raised with a compare-and-swap loop as
+	// well: a follower's read-revision sync and the started-leading callback may get here at once, and
+	// a single lost compare-and-swap would leave the deal cursor below the revision just committed
+	for {
+		preTSO := atomic.LoadUint64(&n.dealRevision)
+		if preTSO >= revision || atomic.CompareAndSwapUint64(&n.dealRevision, preTSO, revision) {
+			break
+		}
 	}
 }
 
